@@ -186,6 +186,10 @@ func (g *DirectedMatrix) RemoveEdge(fid, tid int64) {
 	if !g.has(tid) {
 		return
 	}
+	if fid == tid {
+		// Self edges do not exist and the diagonal holds the self weight.
+		return
+	}
 	// fid and tid are not greater than maximum int by this point.
 	g.mat.Set(int(fid), int(tid), g.absent)
 }
